@@ -44,6 +44,8 @@ type Server struct {
 	// Lease management
 	leases   map[string]*Lease // client DUID -> lease
 	leasesMu sync.RWMutex
+	// lastExpiry is when expireLeases last scanned the lease table (guarded by leasesMu)
+	lastExpiry time.Time
 
 	// Statistics
 	solicitReceived uint64
@@ -425,8 +427,40 @@ func (s *Server) receiveLoop(ctx context.Context) {
 	}
 }
 
+// expireLeases ends every binding whose valid lifetime has run out and returns
+// its address and prefix to the pool they came from. Lifetimes have a
+// resolution of one second, so the table is scanned at most once per second.
+func (s *Server) expireLeases() {
+	now := time.Now()
+	ctx := context.Background()
+
+	s.leasesMu.Lock()
+	defer s.leasesMu.Unlock()
+
+	if now.Sub(s.lastExpiry) < time.Second {
+		return
+	}
+	s.lastExpiry = now
+
+	for duid, lease := range s.leases {
+		if lease.ValidEnd.IsZero() || !now.After(lease.ValidEnd) {
+			continue
+		}
+		if lease.Address != nil {
+			s.releaseAddress(ctx, duid)
+		}
+		if lease.Prefix != nil {
+			s.releasePrefix(ctx, duid)
+		}
+		delete(s.leases, duid)
+	}
+}
+
 // handleMessage handles a DHCPv6 message
 func (s *Server) handleMessage(msg *Message, addr *net.UDPAddr) {
+	// Bindings whose valid lifetime is over no longer exist
+	s.expireLeases()
+
 	switch msg.Type {
 	case MsgTypeSolicit:
 		atomic.AddUint64(&s.solicitReceived, 1)
@@ -945,6 +979,8 @@ func (s *Server) buildReply(msg *Message, clientDUID string, clientAddr net.IP) 
 
 				s.leasesMu.Lock()
 				lease.Prefix = prefix
+				lease.PreferredEnd = time.Now().Add(time.Duration(preferred) * time.Second)
+				lease.ValidEnd = time.Now().Add(time.Duration(valid) * time.Second)
 				s.leasesMu.Unlock()
 
 				prefixLen, _ := prefix.Mask.Size()
